@@ -295,7 +295,9 @@ func scenarios(tier string) []scen {
 							}
 						}
 						if tier != "thorough" {
-							pb = 1
+							if commits > 1 {
+								pb = 1
+							}
 							if commits > 2 {
 								continue
 							}
